@@ -26,10 +26,12 @@ func init() {
 			"into resources (store and delete paired, under the lookup); every handler that stores into resources revalidates the same key first; the finisher's deletions range over oldResources and carry no Value.  " +
 			"(nowait) in the resync function every point that can emit updates (directly or through a callee) is either in a callee that itself first leaves WaitForDatastore (if status==WaitForDatastore → send ResyncInProgress) " +
 			"or is preceded by that transition on every path from the function entry and from every send of WaitForDatastore.  " +
+			"(convreset) in the resync function, on every path (from the entry and around the retry loop) the UpdateProcessor is reset with OnSyncerStarting between the conversion of one list's items and the conversion of the next list's items " +
+			"(a re-List carries no deletions, so a stateful converter must drop its private cache first); paths on which UpdateProcessor is nil are exempt.  " +
 			"(agg) the syncer announces InSync only from the aggregation whose InSync edge is guarded by `numSynced == len(cacheStatuses)` with numSynced incremented only for entries equal to InSync; other callers pass a " +
 			"constant that is not InSync; buffered updates are flushed before a status is announced; per-cache statuses start as a non-InSync constant.",
 		NotDecided: "Convergence of the emitted stream to the datastore contents; correctness of revision comparison; that updates emitted from the watch loop (loopReadingFromWatcher) never occur in WaitForDatastore " +
-			"(this needs the non-local fact that a watch only exists after a successful resync; only the resync function and its callees are decided); behaviour of UpdateProcessor conversions; that oldResources is nil after the sweep.",
+			"(this needs the non-local fact that a watch only exists after a successful resync; only the resync function and its callees are decided); behaviour of UpdateProcessor conversions (only that the reset notification is delivered, not what an implementation does with it); that oldResources is nil after the sweep.",
 		Assumptions: []string{
 			"go/types + go/ssa (x/tools v0.50.0) model of the current source, CGO_ENABLED=0 build, non-test files",
 			"each watcherCache is driven by one goroutine; sendResult is the only sender on the results channel",
@@ -57,6 +59,11 @@ func init() {
 				Old: "\n\t\t\tif wc.status == api.WaitForDatastore {\n\t\t\t\twc.sendResult(api.ResyncInProgress)\n\t\t\t}\n", New: "\n", Expect: "C26.nowait"},
 			{Name: "connection-failure deletions emitted while in WaitForDatastore", File: c26CacheFile,
 				Old: "\n\t\tif wc.status == api.WaitForDatastore {\n\t\t\twc.sendResult(api.ResyncInProgress)\n\t\t}\n", New: "\n", Expect: "C26.nowait"},
+			{Name: "converter reset only when a status regression is signalled", File: c26CacheFile,
+				Old: "\t\t\t}\n\n\t\t\t// Notify the converter that we are resyncing.\n\t\t\tif wc.resourceType.UpdateProcessor != nil {\n\t\t\t\twc.logger.Debug(\"Trigger converter resync notification\")\n\t\t\t\twc.resourceType.UpdateProcessor.OnSyncerStarting()\n\t\t\t}\n",
+				New: "\n\t\t\t// Notify the converter that we are resyncing.\n\t\t\tif wc.resourceType.UpdateProcessor != nil {\n\t\t\t\twc.logger.Debug(\"Trigger converter resync notification\")\n\t\t\t\twc.resourceType.UpdateProcessor.OnSyncerStarting()\n\t\t\t}\n\t\t\t}\n", Expect: "C26.convreset"},
+			{Name: "converter reset only for the first list", File: c26CacheFile,
+				Old: "\t\t\tif wc.resourceType.UpdateProcessor != nil {\n\t\t\t\twc.logger.Debug(\"Trigger converter resync notification\")", New: "\t\t\tif wc.resourceType.UpdateProcessor != nil && wc.status == api.WaitForDatastore {\n\t\t\t\twc.logger.Debug(\"Trigger converter resync notification\")", Expect: "C26.convreset"},
 			{Name: "syncer in-sync as soon as any cache is synced", File: c26SyncFile,
 				Old: "case numSynced == len(ws.cacheStatuses):", New: "case numSynced > 0:", Expect: "C26.agg/insync-when-all-synced"},
 			{Name: "every status counts as synced", File: c26SyncFile,
@@ -87,12 +94,14 @@ func runC26(c *Ctx) {
 	c.Rule("C26.insync", "E-OWN/E-GUARD/E-ORDER", "cache InSync sent only by the resync finisher, which runs only after a completed (or not-found) List, after the synthesized deletions", 4)
 	c.Rule("C26.sweep", "E-PAIR/E-ORDER", "mark-and-sweep: resources→oldResources on List success, revalidation moves entries back, handlers revalidate before storing, sweep deletes what is left of oldResources", 4)
 	c.Rule("C26.nowait", "E-GUARD/E-ORDER", "in the resync function no update can be emitted before the cache has left WaitForDatastore", 3)
+	c.Rule("C26.convreset", "E-PATH (3-state forward dataflow)", "listed items are converted only by a converter that was reset (OnSyncerStarting) since the previous list's items were converted, on every path of the resync function", 1)
 	c.Rule("C26.agg", "E-GUARD/E-FLOW/E-ORDER", "syncer InSync only when all caches are InSync; updates flushed before a status; caches start not in sync", 4)
 	m.resolve()
 	m.insyncRules()
 	m.sweepRules()
 	m.nowaitRules()
 	m.aggRules()
+	m.convResetRules()
 }
 
 func (m *c26Model) fld(name string) *types.Var {
@@ -869,4 +878,194 @@ func (m *c26Model) hasUpdateParam(f *ssa.Function) bool {
 		}
 	}
 	return false
+}
+
+// ------------------------------------------------------------- convreset --
+
+// convResetRules: a full re-List carries no delete events, so a stateful
+// converter (UpdateProcessor) must be told to drop its private cache before the
+// items of a new list are converted.  Decided as a forward may-analysis over the
+// resync function with three states of the converter:
+//
+//	F  stale: items were converted since the last reset and a newer List was issued
+//	   (also the state at function entry: the watch loop converts events)
+//	T  reset since the last conversion
+//	D  converting the items of the current list (reset happened before the first one)
+//
+// reset: *→T;  List: D→F;  conversion: T→D, D→D, F→violation.  Edges on which
+// UpdateProcessor is nil are not followed.
+func (m *c26Model) convResetRules() {
+	c, p := m.c, m.p
+	up := m.fld("ResourceType.UpdateProcessor")
+	ifaceName := c26Pkg + ".SyncerUpdateProcessor"
+	{
+		obj := p.LookupObj(c26Pkg, "SyncerUpdateProcessor")
+		if obj == nil {
+			c.Lost("SyncerUpdateProcessor")
+		}
+		it, _ := obj.Type().Underlying().(*types.Interface)
+		if it == nil {
+			c.Lost("SyncerUpdateProcessor is not an interface")
+		}
+		have := map[string]bool{}
+		for i := 0; i < it.NumMethods(); i++ {
+			have[it.Method(i).Name()] = true
+		}
+		if !have["OnSyncerStarting"] || !have["Process"] {
+			c.Lost("SyncerUpdateProcessor.OnSyncerStarting / Process")
+		}
+	}
+	invokes := func(in ssa.Instruction, name string) bool {
+		ci, ok := in.(ssa.CallInstruction)
+		if !ok {
+			return false
+		}
+		cc := ci.Common()
+		return cc.IsInvoke() && cc.Method.Name() == name && qualTypeName(cc.Value.Type()) == ifaceName
+	}
+	nilUP := c25NilCond(true, func(v ssa.Value) bool { return fieldVar(v) == up })
+	isRet := func(in ssa.Instruction) bool { _, ok := in.(*ssa.Return); return ok }
+
+	// callee summaries
+	mustReset := map[*ssa.Function]int{} // 1 yes, 2 no, 3 busy
+	var isReset func(in ssa.Instruction) bool
+	var resets func(f *ssa.Function) bool
+	resets = func(f *ssa.Function) bool {
+		if f == nil || f.Blocks == nil || f.Pkg != m.resyncFn.Pkg {
+			return false
+		}
+		switch mustReset[f] {
+		case 1:
+			return true
+		case 2, 3:
+			return false
+		}
+		mustReset[f] = 3
+		any := false
+		allInstrs(f, false, func(_ *ssa.Function, in ssa.Instruction) {
+			if isReset(in) {
+				any = true
+			}
+		})
+		res := any && c25Reach(f, nil, isRet, isReset, nilUP) == nil
+		mustReset[f] = 2
+		if res {
+			mustReset[f] = 1
+		}
+		return res
+	}
+	isReset = func(in ssa.Instruction) bool {
+		if invokes(in, "OnSyncerStarting") {
+			return true
+		}
+		if ci, ok := in.(*ssa.Call); ok {
+			return resets(calleeFn(ci.Common()))
+		}
+		return false
+	}
+	var converts func(f *ssa.Function, seen map[*ssa.Function]bool) bool
+	converts = func(f *ssa.Function, seen map[*ssa.Function]bool) bool {
+		if f == nil || f.Blocks == nil || seen[f] || f.Pkg != m.resyncFn.Pkg {
+			return false
+		}
+		seen[f] = true
+		found := false
+		allInstrs(f, true, func(_ *ssa.Function, in ssa.Instruction) {
+			if found {
+				return
+			}
+			if invokes(in, "Process") {
+				found = true
+			} else if ci, ok := in.(ssa.CallInstruction); ok && converts(calleeFn(ci.Common()), seen) {
+				found = true
+			}
+		})
+		return found
+	}
+	isConv := func(in ssa.Instruction) (string, bool) {
+		if invokes(in, "Process") {
+			return "UpdateProcessor.Process", true
+		}
+		if ci, ok := in.(*ssa.Call); ok {
+			if sf := calleeFn(ci.Common()); sf != nil && converts(sf, map[*ssa.Function]bool{}) {
+				return fnName(sf), true
+			}
+		}
+		return "", false
+	}
+
+	f := m.resyncFn
+	lists := map[ssa.Instruction]bool{}
+	for _, l := range m.listCalls(f) {
+		if l.Parent() != f {
+			c.Undecided("C26.convreset/"+fnName(f), p.Pos(l.Pos()), "the List call is inside a closure of %s", fnName(f))
+			return
+		}
+		lists[l] = true
+	}
+	const stF, stT, stD = 1, 2, 4
+	in := map[*ssa.BasicBlock]uint8{f.Blocks[0]: stF}
+	type viol struct {
+		at   ssa.Instruction
+		what string
+	}
+	var viols []viol
+	seenV := map[ssa.Instruction]bool{}
+	sites := map[string]ssa.Instruction{}
+	work := []*ssa.BasicBlock{f.Blocks[0]}
+	for len(work) > 0 {
+		b := work[len(work)-1]
+		work = work[:len(work)-1]
+		s := in[b]
+		for _, i := range b.Instrs {
+			switch what, conv := isConv(i); {
+			case isReset(i):
+				s = stT
+			case lists[i]:
+				if s&stD != 0 {
+					s = s&^stD | stF
+				}
+			case conv:
+				if _, ok := sites[what]; !ok {
+					sites[what] = i
+				}
+				if s&stF != 0 && !seenV[i] {
+					seenV[i] = true
+					viols = append(viols, viol{i, what})
+				}
+				s = stD
+			}
+		}
+		if isPanicBlock(b) {
+			continue
+		}
+		ifi, isIf := b.Instrs[len(b.Instrs)-1].(*ssa.If)
+		for k, succ := range b.Succs {
+			if isIf && len(b.Succs) == 2 && b.Succs[0] != b.Succs[1] {
+				if cnd, pol := stripNot(ifi.Cond, k == 0); nilUP(cnd, pol) {
+					continue
+				}
+			}
+			if in[succ]|s != in[succ] {
+				in[succ] |= s
+				work = append(work, succ)
+			}
+		}
+	}
+	if len(sites) == 0 {
+		c.Lost("%s converts no listed items (no call reaching SyncerUpdateProcessor.Process)", fnName(f))
+	}
+	bad := map[string]ssa.Instruction{}
+	for _, v := range viols {
+		bad[v.what] = v.at
+	}
+	for what, site := range sites {
+		key := "C26.convreset/" + fnName(f) + "/" + what
+		if at, isBad := bad[what]; isBad {
+			c.Violate(key, p.Pos(at.Pos()), "%s: listed items are converted through %s at %s on a path on which SyncerUpdateProcessor.OnSyncerStarting() was not called since the items of the previous list (or watch events before this resync) were converted, and UpdateProcessor is not known to be nil: "+
+				"a re-List carries no deletions, so a stateful converter keeps entries for resources that vanished and the emitted stream does not converge to the converted datastore contents", fnName(f), what, p.Pos(at.Pos()))
+		} else {
+			c.Ok(key, p.Pos(site.Pos()), "on every path the converter is reset (OnSyncerStarting, or UpdateProcessor == nil) between the conversion of one list's items and the next")
+		}
+	}
 }
